@@ -1,4 +1,5 @@
 import TensorModel.Proofs.Assemble
+import TensorModel.Proofs.FreshCopy
 /-!
   C10 — concatenation, stacking, repetition (and the repeat / concat calculators of C13).
   Property theorems only; helper lemmas live in `TensorModel/Proofs/Assemble.lean`.
@@ -18,8 +19,16 @@ import TensorModel.Proofs.Assemble
   * `stack_axisStride`, `repeat_params`: the block lengths and loop bounds the engine derives (from
     the strides of the row-major stacked result; from the shapes for `Repeat`) are the ones the two
     theorems above are stated for.
+  * `repeat_source_by_coordinate`, `repeat_source_rowmajor`: what the loop nest of `repeat_spec` is run on —
+    a source whose storage is its row-major listing is read in place, every other source (non-contiguous or
+    stepped view, pending transpose, column-major data; any rank and strides) is first copied coordinate by
+    coordinate into fresh row-major storage, so the listing `repeat_spec` speaks about is the listing of the
+    source's *logical* elements whatever its layout.
+  * `repeatReuse_via_temporary`, `repeatReuse_fill_by_coordinate`: a reuse tensor that is not stored in
+    row-major order gets the result from a row-major temporary, element `c` of the temporary into the reuse
+    tensor's own cell of coordinate `c`; no other cell of any buffer (the reuse tensor's parent included) changes.
   * `stack_frame`, `repeat_frame`, `repeatReuse_frame`: these operations write nothing but the result
-    (resp. reuse) buffer, whatever the operand layouts.
+    (resp. reuse) buffer of the buffers that existed, whatever the operand layouts.
 
   Not proved here (covered by the harness correspondence only):
   * the statements above are about the pure kernels on window cell lists; the stateful wrappers
@@ -316,16 +325,145 @@ theorem repeat_frame (st st' : St) (t d : Dense) (axis : Int) (reps : List Int)
     d.win.buf = st.heap.size ∧ ∀ b, b < st.heap.size → st'.heap[b]? = st.heap[b]? :=
   repeatNew_frame st st' t d axis reps h
 
-/-- `RepeatReuse` writes only the buffer of the reuse tensor. -/
+/-- `RepeatReuse`, whatever the layouts of the source and of the reuse tensor: of the buffers that existed
+    before the call only the reuse tensor's is written, and none disappears (temporaries are new buffers). -/
 theorem repeatReuse_frame (st st' : St) (t reuse : Dense) (axis : Int) (reps : List Int)
     (h : repeatReuse st t reuse axis reps = .ok st') :
-    st'.heap.size = st.heap.size ∧ ∀ b, b ≠ reuse.win.buf → st'.heap[b]? = st.heap[b]? := by
-  unfold repeatReuse at h
-  obtain ⟨⟨newShape, newReps, size⟩, _, h⟩ := bind_ok h
-  simp only [bind, Except.bind, throwErr] at h
-  split at h
-  · cases h
-  · exact denseRepeat_frame st st' t reuse newShape _ size newReps h
+    st.heap.size ≤ st'.heap.size ∧
+      ∀ b, b < st.heap.size → b ≠ reuse.win.buf → st'.heap[b]? = st.heap[b]? :=
+  Asm.repeatReuse_frame st st' t reuse axis reps h
+
+/-! ## sources and reuse tensors of any layout -/
+
+/-- A source whose storage window is the row-major listing of its elements is read in place. -/
+theorem repeat_source_rowmajor (st : St) (t : Dense) (h : storedRowMajor t = true) :
+    repeatSource st t = .ok (st, t) := by
+  simp [repeatSource, h, pure, Except.pure]
+
+/-- **Repetition reads any other source by coordinate.** A source that is not stored as its row-major listing —
+    a non-contiguous or stepped view, a tensor with a pending transpose, column-major data; any rank, any
+    strides, unmasked — is replaced by a tensor of the same shape in a buffer that did not exist before, stored
+    in row-major order, which holds at every coordinate `c` (its own row-major address) the source's element at
+    `c` (the source's strided address); no cell that existed before is changed. The block loops
+    (`repeat_spec`) then run on that listing. -/
+theorem repeat_source_by_coordinate (st st' : St) (t r : Dense)
+    (hst : storedRowMajor t = false) (hnm : t.mask = none) (hlen0 : t.win.len ≠ 0)
+    (hl : t.ap.strides.length = t.ap.shape.length) (hp : ∀ d ∈ t.ap.shape, 0 < d)
+    (hcap : t.win.len ≤ t.win.cap) (hbuf : t.win.buf < st.heap.size)
+    (hr : ∀ c ∈ allCoords t.ap.shape, 0 ≤ dot c t.ap.strides ∧ dot c t.ap.strides < (t.win.len : Int))
+    (hs : Has st t.win.buf t.win.off t.win.len)
+    (h : repeatSource st t = .ok (st', r)) :
+    r.ap.shape = t.ap.shape ∧ storedRowMajor r = true ∧
+    r.win = ⟨st.heap.size, 0, (prod t.ap.shape).toNat, (prod t.ap.shape).toNat⟩ ∧
+    (∀ c ∈ allCoords t.ap.shape,
+      TM.cell st' st.heap.size (rowRank t.ap.shape c).toNat =
+        some (TM.cellD st t.win.buf (t.win.off + (dot c t.ap.strides).toNat))) ∧
+    (∀ b' k', b' < st.heap.size → TM.cell st' b' k' = TM.cell st b' k') := by
+  have hnn : (t.shape.any (· < 0)) = false := by
+    simp only [Dense.shape, List.any_eq_false, decide_eq_true_eq]
+    intro d hd; have := hp d hd; omega
+  unfold repeatSource recycled at h
+  simp only [hst, Bool.false_eq_true, if_false, hnn, bind, Except.bind, Dense.fresh, St.alloc] at h
+  generalize hr0 : (Dense.mk _ _ _ _ _ _ _ _ _) = r0 at h
+  have hsh0 : r0.ap.shape = t.ap.shape := by rw [← hr0]; rfl
+  have hstr0 : r0.ap.strides = calcStrides t.ap.shape := by rw [← hr0]; rfl
+  have hwin0 : r0.win = ⟨st.heap.size, 0, (prod t.ap.shape).toNat, (prod t.ap.shape).toNat⟩ := by
+    rw [← hr0]; simp [Dense.shape, totalSize]
+  have hflags0 : r0.ap.o.nonContig = false ∧ r0.ap.o.col = false ∧ r0.old = none := by
+    rw [← hr0]; exact ⟨rfl, rfl, rfl⟩
+  -- the iterator path: the source needs its iterator, or its data order is not the temporary's
+  have hfast : (!r0.requiresIterator && !t.requiresIterator && Dense.sameOrder r0 t) = false := by
+    have hst' := hst
+    simp only [storedRowMajor, Bool.or_eq_false_iff, Bool.and_eq_false_iff, beq_eq_false_iff_ne, ne_eq] at hst'
+    obtain ⟨hl1, hrest⟩ := hst'
+    have hl1' : (t.win.len == 1) = false := by simpa using hl1
+    rcases hrest with (hnc | hcol) | hold
+    · simp [Dense.requiresIterator, hl1', hnc]
+    · simp [Dense.sameOrder, hflags0.2.1, hcol]
+    · have : t.old.isSome = true := by cases ho : t.old <;> simp_all
+      simp [Dense.requiresIterator, hl1', this]
+  obtain ⟨hrr, hv, hf⟩ := freshCopy_by_coordinate st st' t r0 r hsh0 hstr0 hwin0 hfast hnm hlen0 hl hp hcap hbuf hr hs
+    (by simpa [Dense.shape, totalSize] using h)
+  subst hrr
+  exact ⟨hsh0, by simp [storedRowMajor, hflags0.1, hflags0.2.1, hflags0.2.2], hwin0, hv, hf⟩
+
+/-- `RepeatReuse` into a reuse tensor that is not stored in row-major order (and has the source's element
+    type, no mask, the shape of the result): the repetition is carried out into a fresh row-major temporary,
+    which `copyDenseIter` then hands to the reuse tensor. -/
+theorem repeatReuse_via_temporary (st : St) (t reuse : Dense) (axis : Int) (reps : List Int)
+    (newShape : Shape) (newReps : List Int) (size : Int)
+    (hS : shapeRepeat t.shape axis reps = .ok (newShape, newReps, size))
+    (heq : shapeEq reuse.shape newShape = true) (hst : storedRowMajor reuse = false)
+    (hnm : reuse.mask = none) (hdt : reuse.dt = t.dt) :
+    repeatReuse st t reuse axis reps = (do
+      let (st, tmp) ← recycled st t.dt newShape
+      let st ← denseRepeat st t tmp newShape (if axis == -1 then 0 else axis) size newReps
+      let (st, _) ← Dense.copyDenseIter st reuse tmp
+      pure st) := by
+  unfold repeatReuse
+  simp only [hS, heq, hst, hnm, bind, Except.bind, Bool.not_true, Bool.not_false, Bool.false_eq_true, if_false,
+    if_true, Option.isSome_none]
+  cases hrec : recycled st t.dt newShape with
+  | error e => rfl
+  | ok x =>
+    obtain ⟨s0, tmp⟩ := x
+    have hdt' : tmp.dt = t.dt := by
+      unfold recycled at hrec
+      split at hrec
+      · simp [throwPanic] at hrec
+      · simp only [Dense.fresh, St.alloc, Except.ok.injEq, Prod.mk.injEq] at hrec
+        obtain ⟨_, rfl⟩ := hrec
+        rfl
+    simp only [hdt, hdt', bne_self_eq_false, Bool.false_eq_true, if_false]
+
+/-- **The reuse tensor is filled by coordinate.** The last step of `repeatReuse_via_temporary`: for a reuse
+    tensor of any well-formed layout that is not stored in row-major order and a row-major temporary of the same
+    shape in another buffer, the reuse tensor's own cell of every coordinate `c` receives the temporary's
+    element `c`; no other cell of any buffer changes — in particular no cell of the reuse tensor's parent
+    outside the view. -/
+theorem repeatReuse_fill_by_coordinate (st : St) (reuse tmp : Dense) (sh : Shape)
+    (hst : storedRowMajor reuse = false)
+    (hsd : reuse.ap.shape = sh) (hss : tmp.ap.shape = sh) (hstr : tmp.ap.strides = calcStrides sh)
+    (hcol : tmp.ap.o.col = false) (hnm : tmp.isMasked = false)
+    (hld : reuse.ap.strides.length = sh.length)
+    (hp : ∀ d ∈ sh, 0 < d) (hne : reuse.win.buf ≠ tmp.win.buf)
+    (hcd : reuse.win.len ≤ reuse.win.cap) (hcs : tmp.win.len ≤ tmp.win.cap) (htl : (prod sh).toNat ≤ tmp.win.len)
+    (hrd : ∀ c ∈ allCoords sh, 0 ≤ dot c reuse.ap.strides ∧ dot c reuse.ap.strides < (reuse.win.len : Int))
+    (hinj : ((allCoords sh).map (fun c => dot c reuse.ap.strides)).Nodup)
+    (hd : Has st reuse.win.buf reuse.win.off reuse.win.len) (hs : Has st tmp.win.buf tmp.win.off tmp.win.len) :
+    ∃ st', Dense.copyDenseIter st reuse tmp = .ok (st', reuse) ∧
+      (∀ c ∈ allCoords sh,
+        TM.cell st' reuse.win.buf (reuse.win.off + (dot c reuse.ap.strides).toNat) =
+          some (TM.cellD st tmp.win.buf (tmp.win.off + (rowRank sh c).toNat))) ∧
+      (∀ b' k', (b' ≠ reuse.win.buf ∨ ∀ c ∈ allCoords sh, k' ≠ reuse.win.off + (dot c reuse.ap.strides).toNat) →
+        TM.cell st' b' k' = TM.cell st b' k') := by
+  have hrs : ∀ c ∈ allCoords sh, 0 ≤ dot c tmp.ap.strides ∧ dot c tmp.ap.strides < (tmp.win.len : Int) := by
+    intro c hc
+    rw [hstr]
+    have hb := rowRank_bounds' sh c (C17compat.allCoords_inBox _ _ hc)
+    unfold rowRank at hb
+    have hpp : 0 ≤ prod sh := by omega
+    omega
+  obtain ⟨st', h1, _, hv, hf⟩ := copyIterOffsets_by_coordinate st reuse tmp sh hsd hss hld
+    (by rw [hstr, calcStrides_length]) hp hne hcd hcs hrd hrs hinj hd hs
+  refine ⟨st', ?_, ?_, hf⟩
+  · have hfast : (!reuse.requiresIterator && !tmp.requiresIterator && Dense.sameOrder reuse tmp) = false := by
+      have hst' := hst
+      simp only [storedRowMajor, Bool.or_eq_false_iff, Bool.and_eq_false_iff, beq_eq_false_iff_ne, ne_eq] at hst'
+      obtain ⟨hl1, hrest⟩ := hst'
+      have hl1' : (reuse.win.len == 1) = false := by simpa using hl1
+      rcases hrest with (hnc | hc) | hold
+      · simp [Dense.requiresIterator, hl1', hnc]
+      · simp [Dense.sameOrder, hcol, hc]
+      · have : reuse.old.isSome = true := by cases ho : reuse.old <;> simp_all
+        simp [Dense.requiresIterator, hl1', this]
+    unfold Dense.copyDenseIter
+    simp only [hfast, Bool.false_eq_true, if_false, bind, Except.bind, h1, Dense.copyMaskIter, hnm, Bool.not_false,
+      if_true, pure, Except.pure]
+  · intro c hc
+    have := hv c hc
+    rw [hstr] at this
+    exact this
 
 /-! ## non-vacuity -/
 
@@ -338,5 +476,33 @@ example : (laRepeat (⟨[2, 2], [10, 11, 12, 13]⟩ : LA Nat) 0 [2, 0]).map (·.
 
 example : (laConcat 1 [(⟨[2, 1], [1, 2]⟩ : LA Nat), ⟨[2, 2], [3, 4, 5, 6]⟩]).map (·.elems) =
     some [1, 3, 4, 2, 5, 6] := by decide
+
+/-- the stepped view `a[0:6:2]` of a six-element vector (window of five cells, stride 2) meets the hypotheses of
+    `repeat_source_by_coordinate`; `Repeat` along axis 0, twice, returns the view's elements `a0 a0 a2 a2 a4 a4`
+    (finding F64: the raw window `a0 a1 a2 …` used to be read) and leaves the parent as it was -/
+def rvSt : St := { heap := #[#[.src 0 0, .src 0 1, .src 0 2, .src 0 3, .src 0 4, .src 0 5]] }
+def rvView : Dense := { ap := { shape := [3], strides := [2], fin := true, o := { nonContig := true } },
+                        win := ⟨0, 0, 5, 5⟩, dt := "i16", view := true }
+example : storedRowMajor rvView = false ∧ rvView.mask = none ∧
+    (allCoords rvView.ap.shape).all (fun c => decide (0 ≤ dot c rvView.ap.strides) && decide (dot c rvView.ap.strides < 5)) = true ∧
+    (match repeatNew rvSt rvView 0 [2] with
+     | .ok (s, d) => d.shape == [6] && s.heap[d.win.buf]? == some #[.src 0 0, .src 0 0, .src 0 2, .src 0 2, .src 0 4, .src 0 4]
+         && s.heap[0]? == rvSt.heap[0]?
+     | _ => false) = true := by decide
+
+/-- a reuse tensor that is a stepped view (`r[0:7:2]`, four elements over a window of seven cells) meets the
+    hypotheses of `repeatReuse_via_temporary` / `repeatReuse_fill_by_coordinate`: the repeated elements land in
+    the view's own cells, the parent's cells between them keep their content (finding F67: the first four raw
+    cells used to be written) -/
+def rrSt : St := { heap := #[#[.src 0 0, .src 0 1],
+                            #[.src 1 0, .src 1 1, .src 1 2, .src 1 3, .src 1 4, .src 1 5, .src 1 6]] }
+def rrSrc : Dense := { ap := { shape := [2], strides := [1], fin := true }, win := ⟨0, 0, 2, 2⟩, dt := "i16" }
+def rrReuse : Dense := { ap := { shape := [4], strides := [2], fin := true, o := { nonContig := true } },
+                         win := ⟨1, 0, 7, 7⟩, dt := "i16", view := true }
+example : storedRowMajor rrReuse = false ∧ storedRowMajor rrSrc = true ∧
+    (match repeatReuse rrSt rrSrc rrReuse 0 [2] with
+     | .ok s => s.heap[1]? == some #[.src 0 0, .src 1 1, .src 0 0, .src 1 3, .src 0 1, .src 1 5, .src 0 1]
+         && s.heap[0]? == rrSt.heap[0]?
+     | _ => false) = true := by decide
 
 end TM.C10
